@@ -240,6 +240,18 @@ func (p *parser) parseType() *TypeExpr {
 	for p.accept("*") {
 		te.Stars++
 	}
+	if p.peekN(0).kind == "ident" && p.peekN(0).text == "map" && p.peekN(1).kind == "op" && p.peekN(1).text == "[" {
+		p.advance()
+		p.advance()
+		te.Name = "map"
+		te.MapKey = p.parseType()
+		if !p.accept("]") {
+			p.fail("expected ] in map type")
+			return te
+		}
+		te.MapVal = p.parseType()
+		return te
+	}
 	t := p.advance()
 	if t.kind != "ident" {
 		p.fail("expected type name, found %q", t.text)
